@@ -92,6 +92,19 @@ HISTORY = {
     "C10-r8-2": "round 8. first run: missed by C10 and C11; det now also gets matrices stacked along two and three leading axes",
     "C01-r8-1": "round 8. first run: caught by C12 and C09, missed by C01; C01's list operands now include nested lists whose first row holds ints and later rows non-integral floats",
     "C01-r8-2": "round 8. first run: missed by C01, C12 and C09; numeric array operands now also come in non-native byte order (layout 'swapped', in every check that draws constant operands)",
+    "C02-r9-1": "round 9 (hard mode). first run: missed; after all riders the coefficients are doubled in place through the raw view and the same call must return doubled values (no per-object caches)",
+    "C02-r9-2": "round 9. first run: missed; 15% of the calls now run under retain_names=False / retain_coefficients=True (evaluation binds arguments to the polynomial's names whatever the options say)",
+    "C18-r9-2": "round 9. first run: missed by C18 and C17; cross_truncate gets its index grid as int64 / float64 / uint8 / int32 array, the same array object is used for two calls and must come back unchanged",
+    "C09-r9-2": "round 9. first run: missed; new catalogue entry stack_out (stack into an output polynomial that has storage for every term, all axes, both spellings)",
+    "C17-r9-1": "round 9. first run: missed; the clean workload now runs every retain flag combination (keywords and global options) on an operand that carries an unused name",
+    "C17-r9-2": "round 9. first run: missed; new workload print_small: array_str / array_repr / str / repr with suppress_small on scalar polynomials with tiny coefficients",
+    "C12-r9-2": "round 9. advanced indices separated by a slice: element placement, caught by C09 (the sepadv index style); not a dtype clause of C12",
+    "C11-r9-1": "round 9. first run: missed; isclose / allclose are now also called with positional tolerances (a, b, rtol, atol)",
+    "C08-r9-1": "round 9. first run: missed; the out form now also uses the first operand itself as output (p /= c spelled with out=) and compares with the result computed without out=; all pairs are compared even when one spelling is a recorded finding",
+    "C08-r9-2": "round 9. first run: missed; new scenario after_error: apply_along_axis with a callback that raises half-way, then the same function again in both spellings against sum(axis)",
+    "C19-r9-1": "round 9. first run: missed by C19 and C17; the arrays returned by tonumpy / lead_exponent / lead_coefficient are overwritten and the polynomial is queried again",
+    "C16-r9-1": "round 9. first run: missed by C16, C15 and C14; a quarter of the printing cases now also set retain_names / retain_coefficients",
+    "C16-r9-2": "round 9. a rejected set_options call has applied the keys before the unknown one: caught by C14",
     "C06-2": "first run: caught by C06, missed by C15; C15's derivative entry now differentiates with respect to several variables",
 }
 REJECTED = [
